@@ -855,6 +855,10 @@ class Engine:
         if m is not None:
             yield from m.fn(self, st, list(args), dict(kwargs))
             return
+        if pycls is object and not args and not kwargs:
+            # a fresh sentinel object: distinct from every value that existed before
+            yield st, self.alloc(st, object)
+            return
         if self.all_concrete(args, kwargs) and not self._is_repo_class(pycls):
             try:
                 yield st, pycls(*args, **kwargs)
